@@ -1017,11 +1017,15 @@ mod pipeline {
                     Ok(popen) => ret.push(popen),
                     Err(err) => {
                         // Dropping `ret` waits for the commands started so
-                        // far.  Close our end of the first command's stdin
-                        // beforehand, or a command reading its input to EOF
-                        // never exits and the wait never returns.
-                        if let Some(first) = ret.first_mut() {
-                            first.stdin.take();
+                        // far.  Close our ends of their pipes beforehand -
+                        // the first command's stdin, and a stderr pipe a
+                        // command was given on its own - or a command that
+                        // reads its input to EOF, or has filled its stderr
+                        // pipe, never exits and the wait never returns.
+                        for started in ret.iter_mut() {
+                            started.stdin.take();
+                            started.stdout.take();
+                            started.stderr.take();
                         }
                         return Err((err, ret));
                     }
